@@ -93,7 +93,10 @@ let exec (a : string array) (_input : int array ref) (bytes : string -> int arra
       let ring = a.(2) = "ring" in
       let len = n_of_int (num a.(3)) in
       let start = if Array.length a <= 7 then None else Some (!d, !buf) in
-      let (w, s) = drive inp ring len (n_of_int (num a.(4))) (n_of_int (num a.(5))) (sched_of a.(6)) start in
+      let (pre, cyc) = match String.index_opt a.(6) '|' with
+        | Some i -> (sched_of (String.sub a.(6) 0 i), sched_of (String.sub a.(6) (i + 1) (String.length a.(6) - i - 1)))
+        | None -> ([], sched_of a.(6)) in
+      let (w, s) = drive inp ring len (n_of_int (num a.(4))) (n_of_int (num a.(5))) pre cyc start in
       match w with
       | WPanic _ -> d := dec_default; buf := amake N0 N0; Some "PANIC"
       | WFuel -> Some "MODEL-OUT-OF-FUEL"
